@@ -204,3 +204,61 @@ def build4(m):
                             ('self.children[0].content == (%s[1:-1] if %s else %s)' % (X, PAD, X), ['C09', 'C02', 'C12'])],
                    modifies=['self.delimiter', 'self.padding', 'self.children', 'N:RawTextTok.content'],
                    prop=['C09', 'C02', 'C12']))
+
+
+def build5(m):
+    """Link / Image constructors (C07: the token's destination and title are the matched ones - for a
+    reference link, by match_link_image's postcondition, the table entry of the first definition;
+    C09: dest_type, label and title delimiter are retained) and AutoLink / LineBreak (C12, C09)."""
+    ST = 'mistletoe.span_token'
+    CT = 'mistletoe.core_tokens'
+    MO = TRef('MatchObj')
+    MATCH = TRef('Match')
+    SPAN3 = TTuple([INT, INT, STR])
+    m.classes.setdefault('MatchObj', {})
+    m.classes['MatchObj'].update({'type': STR, 'delimiter': STR, '_start': INT, '_end': INT, 'dest_type': STR,
+                                  'title_delimiter': TOpt(STR), 'label': STR, '__has_label': BOOL,
+                                  '_f1': SPAN3, '_f2': TOpt(SPAN3), '_f3': TOpt(SPAN3)})
+    m.optional_fields |= {('MatchObj', 'label')}
+    if 'esc_strip' not in m.ufuncs:
+        m.ufunc('esc_strip', [STR], STR)
+    if 'mistletoe.span_token:EscapeSequence.strip#uf' not in m.contracts:
+        m.methods[('EscapeSequence', 'strip')] = 'mistletoe.span_token:EscapeSequence.strip#uf'
+        m.add(Contract('mistletoe.span_token:EscapeSequence.strip#uf', [('string', STR)], returns=STR, trusted=True, pure=True,
+                       ensures=['result == esc_strip(string)'], is_static=True))
+    m.namespaces.setdefault(ST, {})['EscapeSequence'] = ('class', 'EscapeSequence')
+    m.methods[('MatchObj', 'group')] = CT + ':MatchObj.group'
+    m.add(Contract(CT + ':MatchObj.group', [('self', MO), ('n', INT, mk_int(0))], returns=STR, trusted=True, pure=True,
+                   requires=['1 <= n', 'n <= 3', 'implies(n == 2, not is_none(self._f2))', 'implies(n == 3, not is_none(self._f3))'],
+                   ensures=['implies(n == 1, result == self._f1[2])', 'implies(n == 2, result == some(self._f2)[2])',
+                            'implies(n == 3, result == some(self._f3)[2])'],
+                   note='MatchObj.group(n), n >= 1, is the text of the n-th field triple (varargs tuple modelled as _f1.._f3)'))
+    for cls, attr in (('Link', 'target'), ('Image', 'src')):
+        T = TRef(cls + 'Obj')
+        m.classes[cls + 'Obj'] = {attr: STR, 'title': STR, 'dest_type': TOpt(STR), 'label': TOpt(STR), 'title_delimiter': TOpt(STR)}
+        m.methods[(cls, '__init__')] = '%s:%s.__init__' % (ST, cls)
+        m.add(Contract('%s:%s.__init__' % (ST, cls), [('self', T), ('match', MO)],
+                       # a link / image match of the core scanner carries three field triples
+                       requires=['not is_none(match._f2)', 'not is_none(match._f3)'],
+                       ensures=[('self.%s == esc_strip(some(match._f2)[2].strip())' % attr, ['C07', 'C09']),
+                                ('self.title == esc_strip(some(match._f3)[2])', ['C07', 'C09']),
+                                ('some(self.dest_type) == match.dest_type and same(self.title_delimiter, match.title_delimiter)', 'C09'),
+                                ("implies(field(match, '__has_label'), some(self.label) == match.label)", 'C09')],
+                       modifies=['self.' + attr, 'self.title', 'self.dest_type', 'self.label', 'self.title_delimiter'],
+                       prop=['C07', 'C09']))
+    RT = TRef('RawTextTok')
+    AL = TRef('AutoLink')
+    m.classes['AutoLink'] = {'children': TTuple([RT]), 'target': STR, 'mailto': BOOL}
+    m.class_attrs[('AutoLink', 'parse_group')] = ('const', mk_int(1))
+    m.methods[('AutoLink', '__init__')] = ST + ':AutoLink.__init__'
+    m.add(Contract(ST + ':AutoLink.__init__', [('self', AL), ('match', MATCH)],
+                   ensures=[('self.target == m_group(match, 1) and self.children[0].content == m_group(match, 1)', ['C12', 'C09', 'C08'])],
+                   modifies=['self.children', 'self.target', 'self.mailto', 'N:RawTextTok.content'], prop=['C12', 'C09']))
+    LB = TRef('LineBreak')
+    m.classes['LineBreak'] = {'content': STR, 'soft': BOOL}
+    m.methods[('LineBreak', '__init__')] = ST + ':LineBreak.__init__'
+    m.add(Contract(ST + ':LineBreak.__init__', [('self', LB), ('match', MATCH)],
+                   ensures=[('self.content == m_group(match, 1)', 'C09'),
+                            # CommonMark 6.7: hard iff two or more spaces or a backslash precede the line ending
+                            ("self.soft == (not (m_group(match, 1).startswith('  ') or m_group(match, 1).startswith('\\\\')))", ['C09', 'C02', 'C10'])],
+                   modifies=['self.content', 'self.soft'], prop=['C09', 'C02']))
